@@ -412,17 +412,26 @@ func runCase(e *env, ps pathSpec, ks []kind, raw []byte, desc caseDesc, tl *tall
 		}
 		return "?"
 	}
-	// class of the cause the reference sees first
-	cause, causeClass := "all-acceptable", "accept"
+	// name of item i's defect for violation keys: the reason its kind was built for if the reference confirms
+	// it, else the first reference reason
+	reasonAt := func(i int) string {
+		if i >= 0 && i < len(ks) && contains(offending[i], ks[i].Primary) {
+			return ks[i].Primary
+		}
+		return offending[i][0]
+	}
+	// class of the cause the reference sees first: cause (kind label) for coverage classes, reason (reference
+	// reason, path- and variant-independent) for violation keys
+	cause, reason, causeClass := "all-acceptable", "all-acceptable", "accept"
 	switch {
 	case !reqOK:
-		cause, causeClass = "request:"+e.pol.Name+"@"+pathClass(ps), "request-reject"
+		cause, reason, causeClass = "request:"+e.pol.Name+"@"+ps.Name, "request-policy", "request-reject"
 	case !bodyOK:
-		cause, causeClass = "body", "body-reject"
+		cause, reason, causeClass = "body", "body", "body-reject"
 	case lowest >= 0:
-		cause, causeClass = kindAt(lowest), "reject"
+		cause, reason, causeClass = kindAt(lowest), reasonAt(lowest), "reject"
 	case !adm:
-		cause, causeClass = "queue-full", "full"
+		cause, reason, causeClass = "queue-full", "queue-full", "full"
 	}
 
 	switch {
@@ -434,35 +443,35 @@ func runCase(e *env, ps pathSpec, ks []kind, raw []byte, desc caseDesc, tl *tall
 	case expectAccept && accepted:
 		checkSuccess(e, ps, items, status, jsonErr, reply, postMsgs, postRows, fail)
 	case !expectAccept && accepted:
-		fail("accepted:"+cause, "reference rejects (%s: %v) but publish answered %d published=%v; queue before:\n%s after:\n%s",
+		fail("accepted:"+reason, "reference rejects (%s: %v) but publish answered %d published=%v; queue before:\n%s after:\n%s",
 			cause, reasonsAt(offending, lowest), status, deref(reply.Published), e.preDump, postDump)
 	default:
 		if status < 400 || status > 599 || jsonErr != nil || strings.TrimSpace(reply.Code) == "" {
-			fail("unstructured-error:"+cause, "rejection is not a structured 4xx/5xx error (json error: %v)", jsonErr)
+			fail("unstructured-error:"+reason, "rejection is not a structured 4xx/5xx error (json error: %v)", jsonErr)
 		}
 		if postDump != e.preDump {
-			fail("not-atomic:"+cause, "rejected request (%s) changed the queue\n before:\n%s after:\n%s", cause, e.preDump, postDump)
+			fail("not-atomic:"+reason, "rejected request (%s) changed the queue\n before:\n%s after:\n%s", cause, e.preDump, postDump)
 		}
 		switch {
 		case !reqOK || !bodyOK || lowest < 0:
 			// no unacceptable item to name, or a request-level cause as well: an index, if present, must still name an offender
 			if reply.ItemIndex != nil && lowest >= 0 {
 				if r := *reply.ItemIndex; r < 0 || r >= n || len(offending[r]) == 0 {
-					fail("item_index:names-acceptable-item:"+cause, "item_index %d does not name an unacceptable item", r)
+					fail("item_index:names-acceptable-item:"+reason, "item_index %d does not name an unacceptable item", r)
 				}
 			} else if reply.ItemIndex != nil && n > 0 && (*reply.ItemIndex < 0 || *reply.ItemIndex >= n) {
-				fail("item_index:out-of-range:"+cause, "item_index %d outside the batch of %d", *reply.ItemIndex, n)
+				fail("item_index:out-of-range:"+reason, "item_index %d outside the batch of %d", *reply.ItemIndex, n)
 			}
 		case reply.ItemIndex == nil:
-			fail("item_index:absent:"+cause, "item %d is unacceptable (%v) but the error names no item", lowest, offending[lowest])
+			fail("item_index:absent:"+reason, "item %d is unacceptable (%v) but the error names no item", lowest, offending[lowest])
 		default:
 			r := *reply.ItemIndex
 			switch {
 			case r == lowest:
 			case r < 0 || r >= n || len(offending[r]) == 0:
-				fail("item_index:names-acceptable-item:"+cause, "first unacceptable item is %d (%v) but item_index %d names an acceptable item", lowest, offending[lowest], r)
+				fail("item_index:names-acceptable-item:"+reason, "first unacceptable item is %d (%v) but item_index %d names an acceptable item", lowest, offending[lowest], r)
 			default:
-				fail("item_index:"+kindAt(lowest)+"-before-"+kindAt(r), "first unacceptable item is %d (%s: %v) but item_index = %d (%s: %v)",
+				fail("item_index:"+reasonAt(lowest)+"-before-"+reasonAt(r), "first unacceptable item is %d (%s: %v) but item_index = %d (%s: %v)",
 					lowest, kindAt(lowest), offending[lowest], r, kindAt(r), offending[r])
 			}
 		}
@@ -489,7 +498,7 @@ func runCase(e *env, ps pathSpec, ks []kind, raw []byte, desc caseDesc, tl *tall
 	if causeClass != "reject" {
 		pos = -1
 	}
-	tl.distinct[fmt.Sprintf("%s|%s@%d/%d|%s|%s", pathClass(ps), cause, pos, n, e.pre.Name, verdict)] = struct{}{}
+	tl.distinct[fmt.Sprintf("%s|%s@%d/%d|%s|%s", ps.Name, cause, pos, n, e.pre.Name, verdict)] = struct{}{}
 	if tl.codes[cause] == nil {
 		tl.codes[cause] = map[string]struct{}{}
 	}
@@ -507,8 +516,6 @@ func runCase(e *env, ps pathSpec, ks []kind, raw []byte, desc caseDesc, tl *tall
 	}
 	return out, nil
 }
-
-func pathClass(ps pathSpec) string { return ps.Name }
 
 func reasonsAt(off [][]string, i int) []string {
 	if i < 0 || i >= len(off) {
@@ -668,7 +675,10 @@ func checkSuccess(e *env, ps pathSpec, items []itemSpec, status int, jsonErr err
 	if e.pre.Depth > 0 && active > e.pre.Depth {
 		fail("success-shape:max_depth", "%d queued+leased rows after publish exceed max_depth %d", active, e.pre.Depth)
 	}
-	// the observable the property names: GET /messages
+	// the observable the property names: GET /messages (its page holds at most 1000 rows)
+	if len(postMsgs) > 1000 {
+		return
+	}
 	url := "/messages?limit=1000&include_payload=true&include_headers=true"
 	st, raw := do(e.app.Admin, "GET", url, nil, nil)
 	var listing struct {
